@@ -3061,8 +3061,61 @@ def _sat_formula(f):
         return True
 
 
+MEMO_INVALIDATION = None # callable(attribute name) -> state-changing methods of the function's class that never refer to the attribute (set per function by reference_status)
 INIT_ONLY_ATTRS = None   # attributes of repo classes assigned in constructors only (set by reference_status)
 WEAK_EQ_ATTRS = None     # attribute names of repo classes that define __eq__ (set by reference_status from the program model)
+
+
+
+def _memo_invalidation_for(ctx, fi):
+    """-> callable(attr) listing the methods of fi's class (other than fi, constructors excluded) that change the object's state --
+    store to / mutate an attribute of self, or run SQL that writes -- and refer to `attr` neither themselves nor through the methods
+    of the class they call; None for a function that is no method"""
+    import re
+    cls = getattr(fi, "cls", None)
+    if cls is None:
+        return None
+    meths = {}
+    for k in reversed(ctx.p.mro(cls)):
+        for n, m in k.methods.items():
+            if isinstance(m.node, (ast.FunctionDef, ast.AsyncFunctionDef)):
+                meths[n] = m
+
+    def self_calls(m):
+        return {c.func.attr for c in ast.walk(m.node) if isinstance(c, ast.Call) and isinstance(c.func, ast.Attribute) and isinstance(c.func.value, ast.Name) and c.func.value.id == "self" and c.func.attr in meths}
+
+    def writes_state(m, seen=()):
+        for n in ast.walk(m.node):
+            base = None
+            if isinstance(n, (ast.Attribute, ast.Subscript)) and isinstance(n.ctx, (ast.Store, ast.Del)):
+                base = n.value if isinstance(n, ast.Subscript) else n
+            elif isinstance(n, ast.Call) and isinstance(n.func, ast.Attribute) and n.func.attr in MUTATORS:
+                base = n.func.value
+            while isinstance(base, ast.Subscript):
+                base = base.value
+            if isinstance(base, ast.Attribute) and isinstance(base.value, ast.Name) and base.value.id == "self":
+                return True
+            if isinstance(n, ast.Constant) and isinstance(n.value, str) and re.search(r"\b(insert|update|delete|replace)\b", n.value, re.I) and re.search(r"\b(into|from|set)\b", n.value, re.I):
+                return True
+        return any(writes_state(meths[c], seen + (m.node.name,)) for c in self_calls(m) if c not in seen and c != m.node.name)
+
+    def refers(m, attr, seen=()):
+        if any(isinstance(n, ast.Attribute) and n.attr == attr for n in ast.walk(m.node)):
+            return True
+        return any(refers(meths[c], attr, seen + (m.node.name,)) for c in self_calls(m) if c not in seen and c != m.node.name)
+
+    def lacking(attr):
+        out = []
+        for n, m in sorted(meths.items()):
+            if m is fi or n in ("__init__", "__new__") or n == getattr(fi.node, "name", None):
+                continue
+            try:
+                if writes_state(m) and not refers(m, attr):
+                    out.append(n)
+            except RecursionError:
+                continue
+        return out
+    return lacking
 
 
 def stale_memo(sm, new_locs):
@@ -3107,7 +3160,7 @@ def stale_memo(sm, new_locs):
             v = v.split(" in loop")[0].split(" after ")[0]
             from_value = state_reads(v, {loc})
             computed_from |= from_value
-            if not from_value and re.fullmatch(r"\s*(True|False|None|-?\d+|'[^']*'|b'[^']*')\s*", v.split(" = ", 1)[-1] if " = " in v else v):
+            if not from_value and (it.head.startswith("call %s." % loc) or re.fullmatch(r"\s*(True|False|None|-?\d+|'[^']*'|b'[^']*')\s*", v.split(" = ", 1)[-1] if " = " in v else v)):
                 # a flag: what it records is the condition under which it is set
                 computed_from |= state_reads(fmt_formula(it.cond) if it.cond not in (True, False) else "", {loc})
         # what is kept may also depend on an ARGUMENT of the call that filled it: then the slot (or its key) has to say which
@@ -3161,6 +3214,15 @@ def stale_memo(sm, new_locs):
             if not telling:
                 telling = [a for a in atoms if mentions(a)]
             if telling and not any(state_reads(hide(a), {loc}) for a in telling) and not state_reads(hide(it.head[7:]), {loc}):
+                # ... unless every other method of the class that changes the object's state refers to the memo (resets it): then
+                # whether it can go stale is a question about those methods, and this rule gives no verdict
+                lacking = MEMO_INVALIDATION(attr) if MEMO_INVALIDATION is not None else None
+                if lacking is not None and not lacking:
+                    continue
+                if lacking:
+                    out.append("the result is decided by %s alone (`%s` when `%s`), what is kept there depends on %s, and %s change%s the object's state without referring to it: after such a call the kept value is served as if nothing had changed"
+                               % (loc, it.head[:40], " and ".join(telling)[:70], ", ".join(sorted(computed_from))[:80], ", ".join(lacking[:4]), "s" if len(lacking) == 1 else ""))
+                    break
                 out.append("the result is decided by %s alone (`%s` when `%s`: no test that tells a hit from a miss reads anything else of the object's state), while what is kept there depends on %s"
                            % (loc, it.head[:40], " and ".join(telling)[:70], ", ".join(sorted(computed_from))[:80]))
                 break
@@ -3193,6 +3255,17 @@ def stale_memo(sm, new_locs):
                             break
                 if out:
                     break
+        # the memo gates WORK (a lookup is skipped when the key is in a set of known misses) rather than the value handed out: the tests
+        # about it read nothing but the memo, and some method that changes the object's state never refers to it
+        if not any(loc in o_ for o_ in out) and MEMO_INVALIDATION is not None and computed_from:
+            lacking = MEMO_INVALIDATION(attr)
+            a_atoms = set()
+            for it in sm.items:
+                if it.cond not in (True, False):
+                    a_atoms |= {a for a in gi.f_opaques(it.cond) if isinstance(a, str) and mentions(a)}
+            if lacking and a_atoms and not any(state_reads(hide(a), {loc}) for a in a_atoms):
+                out.append("whether %s does its state-dependent work (%s) is decided by tests that read only the memo (`%s`), and %s change%s the object's state without referring to it: after such a call the remembered answer is served as if nothing had changed"
+                           % (getattr(fn_, "name", "the function"), ", ".join(sorted(computed_from))[:70], sorted(a_atoms)[0][:60], ", ".join(lacking[:4]), "s" if len(lacking) == 1 else ""))
     return out
 
 
@@ -3678,7 +3751,12 @@ def reference_status(ctx, fi, ref_source, ref_names, int_names=None, leaf=None, 
                         if isinstance(n_, ast.Attribute) and isinstance(n_.ctx, (ast.Store, ast.Del)) and isinstance(n_.value, ast.Name) and n_.value.id in ("self", "cls"):
                             tgt.add(n_.attr)
                 INIT_ONLY_ATTRS = in_init - elsewhere
-            stale = stale_memo(s_code, ns) if ns else []
+            global MEMO_INVALIDATION
+            MEMO_INVALIDATION = _memo_invalidation_for(ctx, fi)
+            try:
+                stale = stale_memo(s_code, ns) if ns else []
+            finally:
+                MEMO_INVALIDATION = None
             if stale:
                 # whatever else changed: the function now keeps something between calls that the reviewed one did not, and hands
                 # it out again without looking at the state it was computed from
